@@ -341,3 +341,6 @@ def run(ctx):
     from ..families import check_error_swallow as _swallow
     ctx.rule('C06.4-errors-surface', 'in the functions of this property that can themselves report failure, the Result of one of the repository\'s own fallible functions is never turned into "nothing" or a default (ok(), unwrap_or*, map_or*): an error must surface as an error, not as a value the callee never produced; a rule about what must not be there (exercised on the fixture every run)', floor=0)
     _swallow(ctx, P, 'C06.4-errors-surface', ('edp_client::connection::Connection::receive', 'edp_client::connection::Connection::read_message', 'edp_client::fragmentation::', 'erltf::decoder::decode_with_atom_cache', 'erltf::decoder::decode_fragment'))
+
+    from .c05 import transport_rules as _tr6
+    _tr6(ctx, 'C06.5-transport-discipline')
